@@ -266,6 +266,14 @@ theorem has_indexes_history_independent (env : Env) (vs : VerSec) (k : Nat) :
   unfold Model.SigCache.stateless VerSec.hasIndexesScan
   cases vs.hasIndexes env <;> rfl
 
+/-- composed with `need_has_indexes_exact`: on every laid-out requirement section, however often `has_indexes()` is asked
+    on one object, each answer is "some auxiliary has a non-zero vna_other" of the encoded entries -/
+theorem need_has_indexes_any_history (env : Env) (c : ElfCfg) (data : Bytes) (off strOff : Nat) (es : List NeedEntry)
+    (hlen : data.length < 2 ^ 63) (h : needLayout c.le data strOff off es = true) (k : Nat) :
+    ((VerSec.mkNeed (Spec.elfStructs c) data off es.length strOff).hasIndexesHist env k).1
+      = List.replicate k (.ok (needHasIndexes es)) := by
+  rw [has_indexes_history_independent, need_has_indexes_exact env c data off strOff es hlen h]
+
 /-- a walk that raised leaves nothing behind -/
 theorem has_indexes_failed_walk_publishes_nothing (env : Env) (vs : VerSec) (e : Err) (he : vs.hasIndexes env = .error e)
     (k : Nat) : (vs.hasIndexesHist env k).2.map.isSome = false := by
